@@ -192,6 +192,9 @@ func Main(t *testing.T, checks map[string]Check) {
 	}
 	chk := checks[prop]
 	if chk == nil {
+		if out := os.Getenv("VERIF_OUT"); out != "" {
+			_ = os.WriteFile(out, []byte(`{"done":true,"skipped":true}`), 0o644)
+		}
 		t.Skip("no check for " + prop + " in this package")
 	}
 	atoi := func(k string, d int) int {
